@@ -63,6 +63,8 @@ ALL_FEATURES = [
     "global_readers",       # globals that read other aggregate globals:  r :: comptime { p.a }
     "local_comptime_calls", # comptime blocks *inside recursive functions*, after the recursive call,
                             # that call other functions: as a constant, an array size, a type
+    "use_core",             # main prints through core.println (the real `core` module, ~300 more
+                            # items incl. cycles in the scheduler) instead of the putchar printer
     "same_names",           # two definitions with the *same name* living in different files (they
                             # stay in their files; everything else moves around them)
     "generic_twins",        # same-shaped functions calling one generic function with different
@@ -275,6 +277,9 @@ def render(prog, variant):
                 for other in prog.items:
                     if other.uses is not None:
                         body.extend(other.uses(ref, tmp))
+                if "use_core" in prog.features:
+                    body = [b.replace("emit(", "core.println(") for b in body]
+                    chunks.append('core :: #mod("core");')
                 text = "main :: () -> i32 {\n" + "".join("    %s\n" % s for s in body) \
                        + "    %d\n}" % prog.status
                 chunks.append(text)
@@ -1297,7 +1302,7 @@ def generate(rnd, features=None, n_globals=None):
     if features is None:
         features = {"functions"}
         for f in ALL_FEATURES:
-            if rnd.random() < 0.55:
+            if rnd.random() < (0.2 if f == "use_core" else 0.55):
                 features.add(f)
     if n_globals is None:
         n_globals = rnd.randint(3, 12)
